@@ -517,6 +517,10 @@ func c13Run(t *testing.T, c *evid.Collector) {
 			{p("a", "0"), en, p("a", "1"), d("a"), p("b", "x"), su, p("b", "y"), d("a")},
 			{en, p("a", "1"), p("a", "2"), p("a", "3"), {K: "delver", B: "bk0", Key: "a", Ref: -1}, p("b", "1")},
 			{en, p("a", "1"), p("a", "22"), p("b/x", "333"), {K: "copy", B: "bk0", Key: "c", SB: "bk0", SKey: "a"}, {K: "copy", B: "bk0", Key: "a", SB: "bk0", SKey: "b/x"}, p("c", "4444"), {K: "copy", B: "bk0", Key: "c", SB: "bk0", SKey: "c"}},
+			// versions that come from completed multipart uploads, and plain uploads on top of them
+			{en, {K: "init", B: "bk0", Key: "a"}, {K: "part", Ref: 0, PartN: 1, Body: []byte("part one ")}, {K: "part", Ref: 0, PartN: 2, Body: []byte("part two")}, {K: "complete", Ref: 0, Parts: []prog.Part{{N: 1}, {N: 2}}}, p("a", "plain on top"), p("b/x", "2"),
+				{K: "copy", B: "bk0", Key: "a", SB: "bk0", SKey: "b/x"}},
+			{{K: "init", B: "bk0", Key: "c"}, {K: "part", Ref: 0, PartN: 1, Body: []byte("only part")}, {K: "complete", Ref: 0, Parts: []prog.Part{{N: 1}}}, p("c", "plain on top, never versioned"), p("a", "1")},
 			{p("a", "1"), {K: "copy", B: "bk0", Key: "b", SB: "bk0", SKey: "a"}, en, {K: "copy", B: "bk0", Key: "b", SB: "bk0", SKey: "a"}, su, {K: "copy", B: "bk0", Key: "b", SB: "bk0", SKey: "b"}},
 		}
 		for _, h := range hs {
